@@ -118,7 +118,13 @@ def c11_decls(tier):
         ("post", "#[doc(hidden)]"),
     ]
     foreign_var = ["/// variant doc", "#[doc = \"x\"]", "#[allow(dead_code)]", "#[cfg(all())]", "#[cfg_attr(all(), allow(unused))]",
-                   "#[deprecated]", "/** block doc */"]
+                   "#[deprecated]", "/** block doc */", "#[allow(dead_code, unused)]", "#[deprecated(since = \"1.0\", note = \"x\")]",
+                   "#[cfg_attr(all(), allow(dead_code, unused))]", "#[doc(alias = \"x\", alias = \"y\")]", "#[cfg(all(all(), not(any())))]",
+                   "#[allow(clippy::all, clippy::pedantic)]", "#[cfg_attr(all(), doc = \"a\", allow(unused))]", "#[doc(hidden)]",
+                   "#[deprecated = \"x\"]", "#[allow()]", "#[rustfmt::skip]"]
+    foreign_enum += [("pre", "#[allow(dead_code, unused)]"), ("mid", "#[deprecated(since = \"1.0\", note = \"x\")]"),
+                     ("post", "#[cfg_attr(all(), allow(dead_code, unused))]"), ("mid", "#[doc(alias = \"x\", alias = \"y\")]"),
+                     ("post", "#[allow()]"), ("mid", "#[cfg_attr(all(), doc = \"a\", allow(unused))]")]
     for r in ("i8", "u32"):
         base_vals = [("V0", "2"), ("V1", None), ("V2", "7")] if r == "u32" else [("V0", "-2"), ("V1", None), ("V2", "5")]
         for pos, a in foreign_enum:
@@ -148,6 +154,31 @@ def c11_decls(tier):
     return out
 
 
+def size_limit_e1(res, tier):
+    """The documented size limit at expansion level (quick: in-process; a 65534-variant enum takes ~6 s of rustc per
+    configuration and is built for real in the thorough tier). E1 verdicts are candidates: a disagreement is confirmed
+    with the real toolchain before it is reported."""
+    import e1
+    import e2
+    for n, want in ((65533, True), (65534, True)):
+        body = ", ".join("V%d" % i for i in range(n))
+        for r in ("u16", "u32", "i64"):
+            decl = "#[enum_tools(into, MIN, MAX)] #[repr(%s)] pub enum E { %s }" % (r, body)
+            st, txt = e1.expand_many([decl])[0]
+            res.states += 1
+            res.transitions += 1
+            res.outcome("e1-size-%d:%s" % (n, st))
+            if (st == "OK") != want:
+                src = "use enum_tools::EnumTools;\n#[derive(Clone, Copy, EnumTools)]\n%s\nfn main() {}\n" % decl
+                v = e2.compile_one(src)
+                res.validated += 1
+                if v.ok != want:
+                    res.violation({"kind": "does-not-compile", "case": "%d unit variants, repr %s" % (n, r), "errors": v.errors[:2]},
+                                  {"e1": txt[:300], "rustc": v.to_json()}, {"repro.rs": src})
+                else:
+                    res.unconfirmed.append({"e1": st, "case": "%d variants" % n})
+
+
 def c11(tier):
     res = Result("C11", tier, "bounded-exhaustive enumeration of in-domain declarations (implicit/explicit mixes, literal spellings, sizes, foreign "
                                "attributes) derived by the real macro; discriminants compared with the compiler's `v as repr` at run time")
@@ -162,6 +193,7 @@ def c11(tier):
         s = Subj("s%05d" % i, d, cfg, bounds=b, weight=4000 if big else (40 if len(d.variants) > 64 else None), sweep_full=False)
         subs.append(s)
     explore(res, "%s/c11" % tier, subs, phases=["conv", "order", "iter", "str"])
+    size_limit_e1(res, tier)
     fam = {}
     for d in decls:
         fam[d.tag["family"]] = fam.get(d.tag["family"], 0) + 1
@@ -325,6 +357,22 @@ def c12(tier):
     res = Result("C12", tier, "bounded-exhaustive mutation grammar over declarations (one documented rule broken per case), each case its own crate judged by rustc")
     ok_cases, cases = c12_cases(tier)
     judge_cases(res, ok_cases, cases)
+    if tier == "quick":
+        # 65535 / 65536 variants at expansion level (built for real in the thorough tier); an acceptance by E1 is confirmed by rustc
+        import e1
+        for n in (65535, 65536):
+            decl = "#[enum_tools(into)] #[repr(u32)] pub enum E { %s }" % ", ".join("V%d" % i for i in range(n))
+            st, txt = e1.expand_many([decl])[0]
+            res.states += 1
+            res.transitions += 1
+            res.outcome("e1-size-%d:%s" % (n, st))
+            if st == "OK":
+                src = "use enum_tools::EnumTools;\n#[derive(Clone, Copy, EnumTools)]\n%s\nfn main() {}\n" % decl
+                v = e2.compile_one(src)
+                res.validated += 1
+                if v.ok:
+                    res.violation({"kind": "out-of-domain-accepted", "case": "size:%d" % n}, {"note": "more than 65534 variants accepted"},
+                                  {"repro.rs": "// must NOT compile, but does:\n" + src})
     res.rule = ("states = declarations (each its own crate); non-trivial = distinct out-of-domain declarations that were rejected; "
                 "a case rejected only by rustc for a reason independent of the derive still satisfies the property (recorded separately)")
     for lab, src in cases[:2] + cases[len(cases) // 2:len(cases) // 2 + 3]:
@@ -448,6 +496,16 @@ def c13_cases(tier):
     # iter range mode on enums with holes
     hole_enums = ["A = 1, B = 3", "A = 0, B = 1, C = 3", "A = -2, B = 0", "A = 3, B = 1", "A = -32768, B = 32767", "A, B, C = 4", "A = 1, B, C = 4, D",
                   "A = 5, B = 7, C = 6, D = 9", "A = 0, B = 2, C = 1, D = 4"]
+    # holes whose size is a multiple of 2^8 / 2^16 / 2^32 (a gap test through a narrow type would miss them), wide reprs
+    for rr, he in (("i64", "A = 0, B = 257"), ("u32", "A = 0, B = 65537"), ("i64", "A = 0, B = 4294967297"), ("i32", "A = -1, B = 0, C = 131073"),
+                   ("u64", "A = 0, B = 1, C = 65538"), ("i64", "A = -9223372036854775808, B = 9223372036854775807"), ("u16", "A = 0, B = 257"),
+                   ("i64", "A = 5, B = 261, C = 517"), ("i128", "A = 0, B = 1, C = 4294967298"), ("usize", "A = 1, B = 65538"),
+                   ("i64", "A = 0, B = 2, C = 1, D = 65540")):
+        for inner in ("iter(mode = \"range\")", "iter(mode = \"range\"), range"):
+            bad.append(("iter-range-on-wide-holes:%s:%s:%s" % (rr, he, inner),
+                        "#![allow(warnings)]\nuse enum_tools::EnumTools;\n#[derive(Clone, Copy, EnumTools)]\n#[enum_tools(%s)]\n#[repr(%s)]\npub enum E { %s }\n" % (inner, rr, he)))
+        ok.append(("iter-auto-on-wide-holes:%s:%s" % (rr, he),
+                   "#![allow(warnings)]\nuse enum_tools::EnumTools;\n#[derive(Clone, Copy, EnumTools)]\n#[enum_tools(iter, range)]\n#[repr(%s)]\npub enum E { %s }\n" % (rr, he)))
     for he in hole_enums:
         for inner in ("iter(mode = \"range\")", "iter(mode = \"range\"), range", "as_str, iter(mode = \"range\", name = \"it\")"):
             bad.append(("iter-range-on-holes:%s:%s" % (he, inner),
@@ -496,7 +554,8 @@ def c14_cases(tier):
                             continue
                         # name assignments
                         order_idx = sorted(range(n), key=lambda i: perm[i])   # positions sorted by the intended value
-                        for na in ("by-value", "reverse", "rename-invert", "prefix-equal", "equal-pair", "equal-last"):
+                        for na in ("by-value", "reverse", "rename-invert", "prefix-equal", "equal-pair", "equal-last", "rename-fix",
+                                   "partial-fix", "partial-break"):
                             if n == 1 and na != "by-value":
                                 continue
                             if tier == "quick" and na == "prefix-equal" and n > 2:
@@ -514,6 +573,23 @@ def c14_cases(tier):
                                 for pos in range(n):
                                     idents[pos] = "N%d" % pos
                                     renames[pos] = "r%d" % (n - 1 - pos)
+                            elif na == "rename-fix":
+                                # identifiers DESCENDING in declaration order, renames ascending: sorted by name only thanks to the renames
+                                for pos in range(n):
+                                    idents[pos] = "N%d" % (n - 1 - pos)
+                                    renames[pos] = "a%d" % pos
+                            elif na in ("partial-fix", "partial-break"):
+                                # only the second variant is renamed: its identifier and its name fall on different sides of the neighbours
+                                if n < 2:
+                                    continue
+                                base = ["B", "D", "F", "H"]
+                                for pos in range(n):
+                                    idents[pos] = base[pos]
+                                if na == "partial-fix":
+                                    idents[1] = "Zz"          # identifier out of order …
+                                    renames[1] = "C" if n > 2 else "C"   # … name in order (B < C < F)
+                                else:
+                                    renames[1] = "Zz" if n > 2 else "A"  # identifier in order, name out of order
                             elif na in ("equal-pair", "equal-last"):
                                 # two adjacent variants carry the SAME name after renaming (first pair / last pair)
                                 pool = ["Q", "Q", "R", "S"] if na == "equal-pair" else ["O", "P", "Q", "Q"][4 - n:]
